@@ -56,7 +56,7 @@ def make_case(rng, g0, orders, relabel, gid):
         keys = list(range(len(nodes)))
         rng.shuffle(keys)
     elif relabel == 'sparse':
-        keys = rng.sample(range(100), len(nodes))
+        keys = rng.sample(range(100) if rng.random() < 0.5 else range(300, 5000), len(nodes))
     else:
         keys = ['n%02d' % k for k in rng.sample(range(60), len(nodes))]
     m = dict(zip(nodes, keys))
@@ -124,12 +124,17 @@ def cases(seed, tier, shard, nshards):
         yield c
 
 
+def fresh(key):
+    """an equal but distinct object (callers compute keys again when they add bonds: 1000 + i, 'bead%d' % i)"""
+    return int(str(key)) if isinstance(key, int) else (key + 'x')[:-1]
+
+
 def build(case):
     g = nx.Graph()
     for key, name in case['nodes']:
         g.add_node(key, fragname=name)
     for a, b, o in case['edges']:
-        g.add_edge(a, b, order=o)
+        g.add_edge(fresh(a), fresh(b), order=o)
     return g
 
 
